@@ -39,15 +39,24 @@ def to_waitn(wait_s: float, tick: float, tpp_num: int):
 
 def run_impl(cfg: dict, arrivals, tick: float, base: float = 1000.0, reads: bool = False, rng=None):
     clock = FakeTime(base)
-    lim = real_limiter(cfg["tppNum"] / cfg["tppDen"], cfg["period"] * tick, cfg["init"], clock)
     steps = []
+    try:
+        lim = real_limiter(cfg["tppNum"] / cfg["tppDen"], cfg["period"] * tick, cfg["init"], clock)
+    except Exception as e:  # noqa: BLE001 - a limiter that cannot be built for legal parameters answers no request
+        return [{"at": at, "waitN": -1, "offgrid": True, "raw": -1.0, "cancelled": False, "tokens": -1,
+                 "crash": f"{type(e).__name__}: {e}"} for at in arrivals]
     for at in arrivals:
         clock.t = base + at * tick
         tokens = -1
-        if reads and rng is not None and rng.random() < 0.5:
-            tokens = lim.tokens                     # looking at the pool must not change it
-            _ = lim.tokens_per_period, lim.period_duration
-        w = lim.consume()
+        try:
+            if reads and rng is not None and rng.random() < 0.5:
+                tokens = lim.tokens                     # looking at the pool must not change it
+                _ = lim.tokens_per_period, lim.period_duration
+            w = lim.consume()
+        except Exception as e:  # noqa: BLE001 - consume() must answer with a wait; raising is judged as a wrong answer
+            steps.append({"at": at, "waitN": -1, "offgrid": True, "raw": -1.0, "cancelled": False, "tokens": -1,
+                          "crash": f"{type(e).__name__}: {e}"})
+            continue
         n, off = to_waitn(w, tick, cfg["tppNum"])
         steps.append({"at": at, "waitN": n, "offgrid": off, "raw": w, "cancelled": False, "tokens": tokens})
     return steps
@@ -67,7 +76,13 @@ def run_impl_wait(cfg: dict, arrivals, tick: float, base: float = 1000.0):
         saved = tbm.time
         tbm.time = clock
         try:
-            lim = tbm.TokenBucketLimiter(cfg["tppNum"] / cfg["tppDen"], cfg["period"] * tick, cfg["init"])
+            try:
+                lim = tbm.TokenBucketLimiter(cfg["tppNum"] / cfg["tppDen"], cfg["period"] * tick, cfg["init"])
+            except Exception as e:  # noqa: BLE001
+                for i, a in enumerate(arrivals):
+                    steps[i] = {"at": a["at"], "waitN": -1, "offgrid": True, "cancelled": False, "tokens": -1, "raw": -1.0,
+                                "crash": f"{type(e).__name__}: {e}"}
+                return
             tasks = []
 
             async def caller(i, a):
@@ -78,6 +93,10 @@ def run_impl_wait(cfg: dict, arrivals, tick: float, base: float = 1000.0):
                 except asyncio.CancelledError:
                     steps[i] = {"at": a["at"], "waitN": 0, "offgrid": False, "cancelled": True, "tokens": tokens, "raw": -1.0}
                     raise
+                except Exception as e:  # noqa: BLE001 - wait() must wait, not raise
+                    steps[i] = {"at": a["at"], "waitN": -1, "offgrid": True, "cancelled": False, "tokens": -1, "raw": -1.0,
+                                "crash": f"{type(e).__name__}: {e}"}
+                    return
                 n, off = to_waitn(loop.time() - t0, tick, cfg["tppNum"])
                 steps[i] = {"at": a["at"], "waitN": n, "offgrid": off, "cancelled": False, "tokens": tokens, "raw": loop.time() - t0}
 
@@ -225,7 +244,7 @@ def gen_traces(rng: random.Random, n: int):
         tpp = Fraction(rng.randint(1, 12), rng.choice([1, 1, 1, 2, 3, 4]))
         cfg = {"tppNum": tpp.numerator, "tppDen": tpp.denominator, "period": rng.choice([1, 1, 2, 3, 5, 7, 10, 60]),
                "init": rng.choice([0, 0, 1, 2, 5, 20])}
-        tick = rng.choice([1.0, 1.0, 0.5, 0.25, 0.1, 3.7, 0.013])
+        tick = rng.choice([1.0, 1.0, 0.5, 0.25, 0.1, 3.7, 0.013, 0.001, 0.0001])      # rates from 0.01/s to 10^5/s
         at, arrivals = 0, []
         mode = rng.choice(["burst", "idle", "overload", "mixed"])
         for _ in range(rng.randint(1, 40)):
